@@ -275,6 +275,17 @@ def _alpha(text, names):
     return text
 
 
+def _sqs(t):
+    return re.sub(r"[\s()]", "", t)
+
+
+def toplevel_in_block(block, n):
+    x = n
+    while x is not None and isinstance(x, Node) and x.parent is not block:
+        x = x.parent
+    return x
+
+
 def _sweep_region(fn_or_closure_body, fn):
     """(increment while-loop, tail-extension statements, flush while-loop) inside a block"""
     stmts = fn_or_closure_body["stmts"]
@@ -366,6 +377,29 @@ def ob_sweeps(ctx, res):
             res.fail("sweep/increment-form", w, "increment loop must add 1 to every open segment and split the segment the item ends in (keeping the old depth after item_end)")
         else:
             res.ok(w, "depth increment: +1 on every open segment; the segment containing item_end is split with the old depth kept after it (both sweeps identical)")
+        # the bump must stop at the first segment that lies entirely at/after the end of the entry: bumping it and splitting off an empty
+        # piece [e,e) of depth+1 (which later entries starting at e keep bumping) puts depths into min/max that no base has
+        arms = [a for a in walk_no_nested_fn(w["body"]) if a.k == "arm" and up(a["pat"]).startswith("Some(")]
+        okg = False
+        if len(arms) == 1 and strip(arms[0]["body"]).k == "block":
+            seg = up(arms[0]["pat"])[5:-1]
+            st0 = strip(arms[0]["body"])["stmts"]
+            inc_i = [i for i, x in enumerate(st0) if x.k == "expr_stmt" and _sqs(up(x)).startswith("%s.value+=1.0" % seg)]
+            for i, x in enumerate(st0):
+                if x.k == "expr_stmt" and strip(x["e"]).k == "if" and inc_i and i < inc_i[0]:
+                    c = _sqs(up(strip(x["e"])["cond"]))
+                    m_ = re.fullmatch(r"%s\.start>=(\w+)|(\w+)<=%s\.start" % (re.escape(seg), re.escape(seg)), c)
+                    if m_ and re.fullmatch(r"\{break;?\}", up(strip(x["e"])["then"])):
+                        ie = m_.group(1) or m_.group(2)
+                        if re.search(r"if %s < %s\.end" % (re.escape(ie), re.escape(seg)), t):
+                            okg = True
+        if not okg:
+            res.fail("sweep/increment-overrun", w,
+                     "the depth of a segment is bumped before it is known to start before the end of the entry: when an entry ends exactly on a segment boundary the NEXT "
+                     "segment is bumped too and an empty piece [e,e) with depth+1 is split off; flushed with zero length it still enters min/max "
+                     "(entries 0-10, 0-5, 0-5, 5-10, 5-10: maximum depth 4 reported, every base has depth 3)")
+        else:
+            res.ok(w, "the bump stops at the first segment starting at or after the end of the entry")
     # (b) tail extension by exhaustive cases
     for what, fn, stmts, lo, hi, names in (("summary", pv, s_stmts, s_inc, s_fl, (cnames[2], cnames[3], cnames[0])),
                                            ("zoom", pz, z_stmts, z_inc, z_fl, ("item_start", "item_end", "overlap"))):
@@ -400,6 +434,20 @@ def ob_sweeps(ctx, res):
             res.fail("sweep/flush-form", fa, "flush loop must run while the first open segment starts before the next entry's start; condition `%s`" % c)
         else:
             res.ok(fa, "flush: segments starting before next_start are flushed (whole, or split at next_start) in both sweeps")
+    # segments without bases (from zero-length entries) must not reach the summary's min/max
+    sw = strip(s_stmts[s_fl]["e"])
+    lenlet = [x for x in walk_no_nested_fn(sw["body"]) if x.k == "let" and x["pat"].k == "p_tuple" and up(x["pat"]["elems"][0]) == "len"]
+    upd = [x for x in walk_no_nested_fn(sw["body"]) if x.k == "match" and up(strip(x["scrut"])) == "summary"]
+    skip = [x for x in sw["body"]["stmts"] if x.k == "expr_stmt" and strip(x["e"]).k == "if" and _sqs(up(strip(x["e"])["cond"])) in ("len==0", "0==len")
+            and re.fullmatch(r"\{continue;?\}", up(strip(x["e"])["then"]))]
+    if len(lenlet) != 1 or len(upd) != 1:
+        res.fail("sweep/summary-flush-shape", sw, "flushed segment length / summary update not found")
+    elif len(skip) != 1 or not (toplevel_in_block(sw["body"], lenlet[0]).order < skip[0].order < toplevel_in_block(sw["body"], upd[0]).order):
+        res.fail("sweep/empty-segment", sw,
+                 "a flushed segment of length 0 (opened by a zero-length entry) adds nothing to bases/sum but its depth still goes into min_val/max_val: "
+                 "entries [0,0),[0,1) report maximum 2; empty segments must be skipped before the summary update")
+    else:
+        res.ok(skip[0], "summary flush: segments without bases are skipped before min/max/sum are updated")
     # next_start default: u32::MAX when there is no next value
     for what, fn, stmts in (("summary", pv, s_stmts), ("zoom", pz, z_stmts)):
         ns = [st for st in stmts if st.k == "let" and up(st["pat"]) == "next_start"]
